@@ -100,13 +100,21 @@ func wireArgs(c WireCall, fhs [][]byte) []byte {
 	case 15:
 		return nfsclient.ArgsLink(fhs[1], fh, name)
 	case 16:
-		return nfsclient.ArgsReaddir(fh, uint64(r.Int(3)), [8]byte{}, uint32(200+r.Int(4000)))
+		return nfsclient.ArgsReaddir(fh, advCookie(r), [8]byte{}, uint32(200+r.Int(4000)))
 	case 17:
-		return nfsclient.ArgsReaddirplus(fh, uint64(r.Int(3)), [8]byte{}, uint32(200+r.Int(4000)), uint32(300+r.Int(4000)))
+		return nfsclient.ArgsReaddirplus(fh, advCookie(r), [8]byte{}, uint32(200+r.Int(4000)), uint32(300+r.Int(4000)))
 	case 21:
 		return nfsclient.ArgsCommit(fh, 0, 0)
 	}
 	return PayloadBytes(c.Seed, 4*r.Int(5))
+}
+
+// advCookie: small resume positions mostly, sometimes values that are negative or huge as signed integers.
+func advCookie(r *simrt.Rand) uint64 {
+	if r.Pct(75) {
+		return uint64(r.Int(3))
+	}
+	return []uint64{1 << 63, 1<<64 - 1, 1 << 32, 1<<63 - 1, 1 << 31, 1000000}[r.Int(6)]
 }
 
 func mangle(c WireCall, args []byte) []byte {
@@ -483,6 +491,14 @@ func statusOf(v any) uint32 {
 func rawClient(cw *c16World, sc *WireScn, ci int, spec WireClient, cl *Client, fhs [][]byte) {
 	o, w := cw.o, cw.w
 	r := simrt.NewRand(uint64(ci)*977 + sc.Sched.Seed)
+	bigTraffic := false
+	for _, c := range sc.Clients {
+		for _, a := range c.Raw {
+			if a == "overlimit" {
+				bigTraffic = true
+			}
+		}
+	}
 	mk := func(proc uint32, args []byte) (uint32, []byte) {
 		xid := uint32(w.xid.Add(1))
 		c := nfsclient.Call{XID: xid, Prog: nfsclient.ProgNFS, Vers: 3, Proc: proc, Cred: RootCred.auth(), Verf: nfsclient.AuthNone(), Args: args}
@@ -559,6 +575,65 @@ func rawClient(cw *c16World, sc *WireScn, ci int, spec WireClient, cl *Client, f
 			} else {
 				cl.Dead = true
 			}
+		case "cookie":
+			// a decodable READDIR/READDIRPLUS whose cookie is negative or huge as a signed number
+			ck := []uint64{1 << 63, 1<<64 - 1, 1<<63 + 5, 1 << 40}[r.Int(4)]
+			var x uint32
+			var b []byte
+			if r.Pct(50) {
+				x, b = mk(16, nfsclient.ArgsReaddir(fhs[0], ck, [8]byte{}, 4096))
+			} else {
+				x, b = mk(17, nfsclient.ArgsReaddirplus(fhs[0], ck, [8]byte{}, 4096, 8192))
+			}
+			cl.Conn.Write(nfsclient.Frame(b, nil))
+			expect([]uint32{x}, "adversarial-cookie")
+		case "burst":
+			// several calls in one write: each answered once, in order
+			var xs []uint32
+			var wire []byte
+			for k, n := 0, 3+r.Int(4); k < n; k++ {
+				x, b := mk(0, nil)
+				xs = append(xs, x)
+				wire = append(wire, nfsclient.Frame(b, nil)...)
+			}
+			cl.Conn.Write(wire)
+			expect(xs, "pipelined")
+		case "overlimit":
+			// fragments each within the record limit whose total exceeds it; the first fragment is a complete, valid call
+			x, b := mk(0, nil)
+			nfr := 5 + r.Int(8)
+			wire := []byte{byte(len(b) >> 24), byte(len(b) >> 16), byte(len(b) >> 8), byte(len(b))}
+			wire = append(wire, b...)
+			filler := make([]byte, 512<<10)
+			for k := 0; k < nfr; k++ {
+				h := uint32(len(filler))
+				if k == nfr-1 {
+					h |= 0x80000000
+				}
+				wire = append(wire, byte(h>>24), byte(h>>16), byte(h>>8), byte(h))
+				wire = append(wire, filler...)
+			}
+			m1 = memNow()
+			cl.Conn.SetWriteDeadline(time.Now().Add(30 * time.Second))
+			cl.Conn.Write(wire)
+			cl.Conn.SetReadDeadline(time.Now().Add(75 * time.Second))
+			closed := false
+			rec, err := nfsclient.ReadRecord(cl.Conn, 8<<20)
+			o.Tick()
+			if err == nil {
+				if rep, derr := nfsclient.DecodeReply(rec); derr == nil && rep.XID == x {
+					o.Vio("C15.over-limit-record-answered", "", "client %d: a record of %d fragments of 512 KiB (%d bytes in total, documented limit 1 MiB) was reassembled and answered", ci, nfr, nfr*len(filler)+len(b))
+				}
+			} else if ne, ok := err.(*ErrNoReply); ok || err != nil {
+				_ = ne
+				if te, isNet := err.(net.Error); !isNet || !te.Timeout() {
+					closed = true
+				}
+			}
+			if !closed && err != nil {
+				o.Vio("C15.undecodable-stream-not-closed", "act=overlimit", "client %d: after an over-limit record the server kept the connection open for 75 simulated seconds", ci)
+			}
+			cl.Dead = true
 		case "garbage", "hugefrag", "hugecred", "cut":
 			var wire []byte
 			switch act {
@@ -600,13 +675,28 @@ func rawClient(cw *c16World, sc *WireScn, ci int, spec WireClient, cl *Client, f
 				}
 			}
 			o.Tick()
-			if grown := memNow().sub(m1); grown > 8<<20 {
+			// TotalAlloc is process-wide: in runs where some client pushes megabytes through the simulated
+			// network (overlimit) the harness's own buffers would be charged to the server, so the bound is
+			// only judged in the other runs
+			if grown := memNow().sub(m1); grown > 8<<20 && !bigTraffic {
 				o.Vio("C15.allocation-exceeds-bounds", "act="+act, "client %d: while the server processed %q bytes TotalAlloc grew by %d bytes", ci, act, grown)
 			}
 			if !closed && act != "garbage" {
 				o.Vio("C15.undecodable-stream-not-closed", "act="+act, "client %d: after %s the server kept the connection open for 75 simulated seconds", ci, act)
 			}
 			cl.Dead = true
+		}
+	}
+	// nothing more may arrive: a call is answered at most once
+	if !cl.Dead {
+		cl.Conn.SetReadDeadline(time.Now().Add(200 * time.Millisecond))
+		if rec, err := nfsclient.ReadRecord(cl.Conn, 8<<20); err == nil {
+			o.Tick()
+			xid := uint32(0)
+			if rep, derr := nfsclient.DecodeReply(rec); derr == nil {
+				xid = rep.XID
+			}
+			o.Vio("C15.call-answered-twice", "", "client %d: after every call had been answered once, a further reply (xid %d) arrived", ci, xid)
 		}
 	}
 	_ = bytes.Equal
@@ -655,11 +745,27 @@ func genC14(r *simrt.Rand, tier string) any {
 	sc := &WireScn{Kind: "C14", Cfg: genCfg(r), TimeoutMs: []int{300, 3000, 30000}[r.Int(3)], Segment: r.Pct(30), Sched: RandSched(r)}
 	sc.Sched.HorizonS = 3600
 	sc.Pol = PolSpec{ReadOnly: r.Pct(30), RL: r.Pct(25)}
+	if !sc.Pol.RL && r.Pct(25) {
+		sc.Pol.RLGen = true // per-operation limits (mount, readdir, large I/O) are what refuses
+	}
 	nc := 1 + r.Int(3)
 	for c := 0; c < nc; c++ {
 		cl := WireClient{Addr: wireAddrs[r.Int(3)]}
 		for i, n := 0, 3+r.Int(10); i < n; i++ {
-			cl.Calls = append(cl.Calls, genWireCall(r))
+			wc := genWireCall(r)
+			if sc.Pol.RLGen && r.Pct(45) {
+				// repeat the operations that have their own buckets
+				switch r.Int(4) {
+				case 0, 1:
+					wc.Prog, wc.Vers, wc.Proc, wc.Mangle = nfsclient.ProgMount, 3, 1, ""
+				case 2:
+					wc.Prog, wc.Vers, wc.Proc, wc.Target, wc.Mangle = nfsclient.ProgNFS, 3, 16, 0, ""
+				case 3:
+					wc.Prog, wc.Vers, wc.Proc, wc.Target, wc.Mangle = nfsclient.ProgNFS, 3, 17, 2, ""
+				}
+				wc.PauseUs = 0
+			}
+			cl.Calls = append(cl.Calls, wc)
 		}
 		sc.Clients = append(sc.Clients, cl)
 	}
@@ -674,19 +780,25 @@ func genC14(r *simrt.Rand, tier string) any {
 func genC15(r *simrt.Rand, tier string) any {
 	sc := &WireScn{Kind: "C15", Cfg: SrvCfg{MaxWorkers: 1 + r.Int(3)}, Segment: r.Pct(60), Sched: RandSched(r)}
 	sc.Sched.HorizonS = 3600
-	acts := []string{"call", "getattr", "two", "frag", "multi", "flip", "garbage", "hugefrag", "hugecred", "cut"}
+	switch r.Int(6) {
+	case 0:
+		sc.Pol.RL = true
+	case 1:
+		sc.Pol.RLGen = true
+	}
+	acts := []string{"call", "getattr", "two", "frag", "multi", "flip", "garbage", "hugefrag", "hugecred", "cut", "overlimit", "cookie", "burst"}
 	nc := 1 + r.Int(3)
 	for c := 0; c < nc; c++ {
 		cl := WireClient{Addr: wireAddrs[1+r.Int(2)]}
 		for i, n := 0, 2+r.Int(6); i < n; i++ {
-			cl.Raw = append(cl.Raw, acts[r.Pick([]int{15, 15, 10, 10, 6, 10, 10, 8, 8, 8})])
+			cl.Raw = append(cl.Raw, acts[r.Pick([]int{15, 15, 10, 10, 6, 10, 10, 8, 8, 8, 6, 8, 8})])
 		}
 		sc.Clients = append(sc.Clients, cl)
 	}
 	// a well-behaved probe connection whose calls must all be answered
 	probe := WireClient{Addr: "10.0.0.77:901"}
 	for i, n := 0, 3+r.Int(4); i < n; i++ {
-		probe.Raw = append(probe.Raw, []string{"call", "getattr", "two"}[r.Int(3)])
+		probe.Raw = append(probe.Raw, []string{"call", "getattr", "two", "burst"}[r.Int(4)])
 	}
 	sc.Clients = append(sc.Clients, probe)
 	return sc
@@ -696,7 +808,7 @@ func genC09(r *simrt.Rand, tier string) any {
 	sc := &WireScn{Kind: "C09", Cfg: SrvCfg{MaxWorkers: 1 + r.Int(2)}, Sched: SeqSched(r.Uint64())}
 	sc.Sched.Mask = simrt.ClassAll
 	sc.Sched.HorizonS = 3600
-	lists := [][]string{nil, {"10.0.0.7"}, {"10.0.0.0/24"}, {"10.0.0.0/8", "192.168.3.4"}, {"0.0.0.0/0"}, {"10.0.0.7/32"}, {"10.0.0.6/31"}, {"::1"}, {"2001:db8::/32"}, {"not-an-ip", "10.0.0.300", "10.0.0.0/33"}, {"::ffff:10.0.0.7"}, {"10.0.1.5/30"}, {"::/0"}, {"128.0.0.0/1"}}
+	lists := [][]string{nil, {"10.0.0.7"}, {"10.0.0.0/24"}, {"10.0.0.0/8", "192.168.3.4"}, {"0.0.0.0/0"}, {"10.0.0.7/32"}, {"10.0.0.6/31"}, {"::1"}, {"2001:db8::/32"}, {"not-an-ip", "10.0.0.300", "10.0.0.0/33"}, {"::ffff:10.0.0.7"}, {"10.0.1.5/30"}, {"::/0"}, {"128.0.0.0/1"}, {"10.0.0.0/33", "192.168.1.300"}, {"nonsense"}, {"10.0.0.7/"}, {"2001:db8::1"}, {"2001:db8::/128"}}
 	pick := func() PolSpec { return PolSpec{Allowed: lists[r.Int(len(lists))], Secure: r.Pct(35)} }
 	sc.Pol = pick()
 	// one client only: "a rejected request reaches no backend call" is then attributable
@@ -712,7 +824,7 @@ func genC09(r *simrt.Rand, tier string) any {
 	}
 	sc.Clients = []WireClient{cl}
 	if r.Pct(40) {
-		sc.Admin = append(sc.Admin, C16Admin{AtUs: []int{0, 200, 5000}[r.Int(3)], Pol: pick()})
+		sc.Admin = append(sc.Admin, C16Admin{AtUs: []int{0, 200, 5000}[r.Int(3)], Pol: pick(), ViaExport: r.Pct(50)})
 	}
 	return sc
 }
@@ -817,13 +929,13 @@ func shrinkWire(scAny any) []any {
 func init() {
 	wireReal := append([]string{"UpdatePolicyOptions", "ValidateAuthentication", "accept-time IP filter", "rate limiting in the connection loop"}, seqReal...)
 	Register(&Prop{ID: "C14", Level: "exploration",
-		Rule: "one case = 1-3 clients each sending 3-12 calls drawn from all 22 NFSv3 and 6 MOUNT procedures (v1 and v3) with well-formed arguments against handles of a file, directory, symlink, root, a never-issued and a stale handle, or arguments truncated at a 4-byte boundary, replaced by garbage, with a length word overwritten by 2^31/2^32-1/limit+1, or with trailing words; unknown programs, versions, procedures and credential flavors; under a drawn initial policy (read-only, rate limiting with burst 1) and, in 60% of runs, a backend call stalled for 30 ms-6 s with a policy update issued on top of it (so arriving calls hit the drain window), random scheduler, optional stream segmentation; monitor on every reply: strict RFC 1831 reply decode, XID echo, and strict decode of the result as the RFC 1813 / MOUNT result type of its procedure and status (nfsstat3 / mountstat3 membership, exact consumption); the same monitor runs in every other server-level check; non-trivial = every run (at least one reply decoded); distinct by event digest",
+		Rule: "one case = 1-3 clients each sending 3-12 calls drawn from all 22 NFSv3 and 6 MOUNT procedures (v1 and v3) with well-formed arguments against handles of a file, directory, symlink, root, a never-issued and a stale handle, or arguments truncated at a 4-byte boundary, replaced by garbage, with a length word overwritten by 2^31/2^32-1/limit+1, or with trailing words; unknown programs, versions, procedures and credential flavors; under a drawn initial policy (read-only, rate limiting with per-client burst 1, or rate limiting with generous request limits and per-operation limits of 1/s for MNT, READDIR and large I/O with those calls repeated) and, in 60% of runs, a backend call stalled for 30 ms-6 s with a policy update issued on top of it (so arriving calls hit the drain window), random scheduler, optional stream segmentation; monitor on every reply: strict RFC 1831 reply decode, XID echo, and strict decode of the result as the RFC 1813 / MOUNT result type of its procedure and status (nfsstat3 / mountstat3 membership, exact consumption); the same monitor runs in every other server-level check; non-trivial = every run (at least one reply decoded); distinct by event digest",
 		Gen:  genC14, New: func() any { return &WireScn{} }, Run: runWire, Shrink: shrinkWire, Real: wireReal, Stubbed: seqStubbed})
 	Register(&Prop{ID: "C15", Level: "exploration",
-		Rule: "one case = 1-3 hostile connections each performing 2-7 actions from {valid call, two calls back to back, call split into up to 60 fragments incl. empty ones, two messages in one record, single bit flip, random bytes, fragment header declaring 2^31-1 bytes, credential length 2^32-1, truncated record followed by close} plus one well-behaved probe connection, all interleaved by the random scheduler with arbitrary transport segmentation; oracle: no panic escapes any goroutine; every well-formed call is answered once, in order, with its XID (also on the probe connection afterwards); after an undecodable stream the server closes the connection within its read timeout (75 simulated s); runtime TotalAlloc growth while the server digests a hostile message stays below 8 MiB; replies that do come decode strictly; non-trivial = every run; distinct by event digest",
+		Rule: "one case = 1-3 hostile connections each performing 2-7 actions from {valid call, two calls back to back, call split into up to 60 fragments incl. empty ones, two messages in one record, single bit flip, random bytes, fragment header declaring 2^31-1 bytes, credential length 2^32-1, truncated record followed by close, a record of 5-12 fragments of 512 KiB whose first fragment is a complete valid call (must be refused, never answered), READDIR/READDIRPLUS with cookies >= 2^63, 3-6 pipelined calls in one write}, under no, strict or per-operation rate limiting, plus one well-behaved probe connection, all interleaved by the random scheduler with arbitrary transport segmentation; oracle: no panic escapes any goroutine; every well-formed call is answered once, in order, with its XID (also on the probe connection afterwards); after an undecodable stream the server closes the connection within its read timeout (75 simulated s); runtime TotalAlloc growth while the server digests a hostile message stays below 8 MiB (judged in runs without megabyte-sized client traffic); after the last call nothing more arrives (a call is answered at most once); replies that do come decode strictly; non-trivial = every run; distinct by event digest",
 		Gen:  genC15, New: func() any { return &WireScn{} }, Run: runWire, Shrink: shrinkWire, Real: wireReal, Stubbed: seqStubbed})
 	Register(&Prop{ID: "C09", Level: "exploration",
-		Rule: "one case = one client from one of 9 peer addresses (IPv4, IPv6, IPv4-mapped, loopback; ports either side of 1024) sending 3-10 well-formed calls of any program/procedure to a server whose AllowedIPs is one of 14 lists (single addresses, CIDRs of prefix length 0,1,8,24,30,31,32,33(malformed), IPv6, IPv4-mapped, malformed entries) with Secure on/off, optionally switched to another such policy at runtime on the live connection; oracle: independent membership function (bit arithmetic over the normalised address); a peer excluded by every policy possibly in force gets MSG_DENIED (or is disconnected at accept time) and causes no backend call; a peer admitted by every such policy is never denied; non-trivial = every run; distinct by event digest. The input space (addresses x lists) is sampled.",
+		Rule: "one case = one client from one of 9 peer addresses (IPv4, IPv6, IPv4-mapped, loopback; ports either side of 1024) sending 3-10 well-formed calls of any program/procedure to a server whose AllowedIPs is one of 14 lists (single addresses, CIDRs of prefix length 0,1,8,24,30,31,32,33(malformed), IPv6, IPv4-mapped, malformed entries, lists in which every entry is malformed, single IPv6 hosts) with Secure on/off, optionally switched to another such policy at runtime on the live connection through UpdatePolicyOptions or UpdateExportOptions; oracle: independent membership function (bit arithmetic over the normalised address); a peer excluded by every policy possibly in force gets MSG_DENIED (or is disconnected at accept time) and causes no backend call; a peer admitted by every such policy is never denied; non-trivial = every run; distinct by event digest. The input space (addresses x lists) is sampled.",
 		Gen:  genC09, New: func() any { return &WireScn{} }, Run: runWire, Shrink: shrinkWire, Real: wireReal, Stubbed: seqStubbed})
 	Register(&Prop{ID: "C08", Level: "exploration",
 		Rule: "one case = 1-3 clients sending 4-13 calls biased to the 11 mutating procedures (well-formed, truncated, garbage and oversize arguments, arbitrary credentials) while an admin toggles ReadOnly 1-3 times at drawn instants, with a backend call stalled so that the switch lands inside a request, every interleaving decided by the random scheduler; monitors: no modifying backend call (write-mode open, write, truncate, create, remove, rename, mkdir, symlink, chmod, chown, chtimes) BEGINS while the read-only policy is certainly in force (from the return of update(ReadOnly=true) to the call of the next update); every mutating procedure sent and answered inside such an interval fails; ACCESS grants none of MODIFY/EXTEND/DELETE there; also evaluated for read-only set at construction; non-trivial = every run; distinct by event digest",
